@@ -411,6 +411,7 @@ func (c *Case) SetByName(name string) *SetDecl {
 // Flatten expands Sets recursively in order.
 func (c *Case) Flatten(elems []Elem) []*Unit {
 	var out []*Unit
+	visited := map[*SetDecl]bool{} // a Set variable reached along two paths contributes its providers once
 	var walk func(es []Elem, depth int)
 	walk = func(es []Elem, depth int) {
 		if depth > 8 {
@@ -426,7 +427,8 @@ func (c *Case) Flatten(elems []Elem) []*Unit {
 			case "value":
 				out = append(out, &Unit{Kind: "value", Type: e.Value, VID: e.VID, H: e.H, Literal: e.Literal})
 			case "set":
-				if s := c.SetByName(e.Set); s != nil {
+				if s := c.SetByName(e.Set); s != nil && !visited[s] {
+					visited[s] = true
 					walk(s.Elems, depth+1)
 				}
 			case "inline":
